@@ -228,6 +228,9 @@ def subobjects(o, kind):
         out = [o]
         for g in o.gates:
             out += subobjects(g, "gate")
+        # the links into a layer chain are held by reference too (a layer that points at the
+        # layers of some circuit shares structure with that circuit)
+        out += [x for x in (getattr(o, "prev_layer", None), getattr(o, "next_layer", None)) if x is not None]
         return out + [m for m in (o.forward_map, o.backward_map) if m is not None]
     if kind == "circuit":
         out = [o]
@@ -340,11 +343,21 @@ class ObjWorld(Run):
                 # layer lists: they cannot legitimately write through shared gates or arrays,
                 # so nothing else may change, aliased or not
                 wroots |= self.slots[w].roots
+        own_layers = set()
+        if structural:
+            # a layer object handed out by the receiver (pick_layer) is a piece of the very
+            # structure being re-arranged
+            for w in writes:
+                ws = self.slots.get(w)
+                if ws is not None and ws.kind == "circuit":
+                    own_layers |= set(id(x) for x in subobjects(ws.obj, "circuit") if hasattr(x, "gates"))
         for name, before in pre.items():
             s = self.slots.get(name)
             if s is None or name in writes:
                 continue
             if s.roots & wroots:
+                continue
+            if s.kind == "layer" and id(s.obj) in own_layers:
                 continue
             try:
                 after = snap(s.obj, s.kind)
@@ -536,7 +549,8 @@ class ObjWorld(Run):
         n = self.n
         which = rng.choice(["rotate", "rotate", "transform", "transform", "measure", "measure", "postselect",
                             "embed", "gate_apply", "gate_apply", "layer_apply", "circuit_apply",
-                            "compile", "take", "take", "take", "compose", "compose", "set_map", "set_r"])
+                            "compile", "take", "take", "take", "compose", "compose", "set_map", "set_r",
+                            "pick_layer", "layer_take"])
         op = {"op": "inplace", "which": which, "entropy": new_entropy(rng)}
         vals = self.by_kind("pauli", "list", "poly", "map", "state", "mono", N=n)
         if which == "rotate":
@@ -616,6 +630,25 @@ class ObjWorld(Run):
             # bias toward circuits that were just composed / copied: a structural mutation right
             # after the call is what exposes structure shared between two circuits
             op["recv"] = self._biased_pick(rng, cs)
+            op["arg"] = self._biased_pick(rng, gs)
+            return op
+        if which == "pick_layer":
+            # a layer object handed out by a circuit (layers_forward / layers_backward): it IS part
+            # of the circuit (legitimate alias); a copy() of it must be independent of the circuit
+            cs = self.by_kind("circuit")
+            if not cs:
+                return None
+            op["recv"] = self._biased_pick(rng, cs)
+            op["index"] = rng.randrange(0, 5)
+            op["walk"] = rng.choice(["forward", "backward"])
+            op["out"] = self.free_name(rng)
+            return op
+        if which == "layer_take":
+            ls = self.by_kind("layer")
+            gs = self.by_kind("gate")
+            if not ls or not gs:
+                return None
+            op["recv"] = self._biased_pick(rng, ls)
             op["arg"] = self._biased_pick(rng, gs)
             return op
         if which == "compose":
@@ -1068,6 +1101,23 @@ class ObjWorld(Run):
                 if recv.kind != "circuit" or arg.kind != "circuit" or arg is recv:
                     raise Skip()
                 recv.obj.compose(arg.obj)
+                extend_from.append(arg)
+            elif which == "pick_layer":
+                if recv.kind != "circuit" or self.torch:
+                    raise Skip()
+                walk = list(recv.obj.layers_forward() if op["walk"] == "forward" else recv.obj.layers_backward())
+                walk = [l for l in walk if hasattr(l, "gates")]
+                if not walk:
+                    raise Skip()
+                layer = walk[op["index"] % len(walk)]
+                writes = set()
+                self.slots[op["out"]] = Slot(layer, "layer", set(recv.roots))
+                pre.pop(op["out"], None)
+                self.stats["config:layer_handed_out_by_circuit"] += 1
+            elif which == "layer_take":
+                if recv.kind != "layer" or arg.kind != "gate" or self.torch:
+                    raise Skip()
+                recv.obj.take(arg.obj)
                 extend_from.append(arg)
             elif which == "set_map":
                 if recv.kind != "gate":
